@@ -525,6 +525,32 @@ def build_fit_column(chk):
                    clause='a per-column dict gives each named column its own distribution and the default (selecting '
                           'Univariate) to unnamed ones; a single configured distribution applies to every column'))
     # fallback: a distribution whose fit raises -> the column is modelled by a fitted GaussianUnivariate
+    def fallback_replay(env):
+        import numpy as np
+        import pandas as pd
+        import warnings
+        warnings.simplefilter('ignore')
+        from copulas.multivariate import GaussianMultivariate
+        from copulas.univariate import GaussianUnivariate, GaussianKDE, BetaUnivariate
+
+        class Refusing(GaussianUnivariate):
+            def _fit(self, X):
+                raise RuntimeError('cannot be fitted')
+        rs = np.random.RandomState(8)
+        X = pd.DataFrame({'a': rs.normal(size=50), 'b': rs.normal(size=50)})
+        bad = []
+        forms = {'class': Refusing, 'instance prototype': Refusing(), 'per-column dict of instances': {'a': Refusing(), 'b': BetaUnivariate()},
+                 'KDE prototype with an unknown bandwidth rule': GaussianKDE(bw_method='bogus')}
+        for name, dist in forms.items():
+            try:
+                m = GaussianMultivariate(distribution=dist)
+                m.fit(X)
+                u = m.univariates[0]
+                if not (isinstance(u, GaussianUnivariate) and not isinstance(u, Refusing) and u.fitted):
+                    bad.append('%s: column a is modelled by %s' % (name, type(u).__name__))
+            except Exception as e:      # noqa
+                bad.append('%s: fit raised %s: %s' % (name, type(e).__name__, str(e)[:60]))
+        return {'confirmed': bool(bad), 'detail': '; '.join(bad) if bad else 'a marginal that cannot be fitted falls back to a Gaussian'}
     I2 = engine.new_interp()
     I2.module('copulas.multivariate.gaussian')
 
@@ -556,7 +582,7 @@ def build_fit_column(chk):
             continue
         if r.outcome != 'return':
             chk.add(Ob('C05.gaussian.fit_column.never_raises.%s' % getattr(r.value, 'clsname', '?'), r.pc, ir.FALSE,
-                       function=GM + '._fit_column', free_ufs_ok=True,
+                       function=GM + '._fit_column', free_ufs_ok=True, replay=fallback_replay,
                        clause='if the configured distribution cannot be fitted the fit still succeeds'))
             continue
         k += 1
